@@ -63,6 +63,19 @@ type memConn struct {
 	// stalled (0 = the watchdog alone decides); slow counts commands that needed the grace period
 	grace time.Duration
 	slow  int
+	// hurry, when set and true, caps the grace period at 8 s: it is set to "the server has logged a
+	// panic", after which a command that does not complete is not merely slow (a panic inside a
+	// critical section whose unlock is not deferred leaves the mutex locked)
+	hurry func() bool
+}
+
+// graceLeft is what remains of the grace period that started at start.
+func (mc *memConn) graceLeft(start time.Time) time.Duration {
+	g := mc.grace
+	if mc.hurry != nil && g > 8*time.Second && mc.hurry() {
+		g = 8 * time.Second
+	}
+	return g - time.Since(start)
 }
 
 func (ms *memServer) dial(id int) *memConn {
@@ -99,21 +112,27 @@ func (mc *memConn) run(line string, timeout time.Duration) (untagged []string, t
 			return nil, "", true, nil
 		}
 		// slow is not stalled: keep waiting for a while
-		select {
-		case r = <-ch:
-			mc.mu.Lock()
-			mc.slow++
-			mc.mu.Unlock()
-		case <-time.After(mc.grace):
-			return nil, "", true, nil
+		start := time.Now()
+		for got := false; !got; {
+			select {
+			case r = <-ch:
+				got = true
+				mc.mu.Lock()
+				mc.slow++
+				mc.mu.Unlock()
+			case <-time.After(time.Second):
+				if mc.graceLeft(start) <= 0 {
+					return nil, "", true, nil
+				}
+			}
 		}
 	}
 	if ne, ok := r.err.(net.Error); ok && ne.Timeout() {
 		// the read deadline of the raw connection expired without a completion; with a grace
 		// period keep reading for the tagged response (a command that is merely slow completes)
-		deadline := time.Now().Add(mc.grace)
+		start := time.Now()
 		tag := fmt.Sprintf("T%d", mc.rc.tag)
-		for mc.grace > 0 && time.Now().Before(deadline) {
+		for mc.graceLeft(start) > 0 {
 			un, tg, err := mc.rc.until(tag)
 			r.un = append(r.un, un...)
 			if err == nil {
